@@ -80,6 +80,8 @@ pub struct Outcome {
     pub violations: Vec<(String, String)>,
     /// per step: tag, ok, reached signature check
     pub step_info: Vec<(String, bool, bool)>,
+    /// per step: (packages/ethereum-verify accepts, independent verifier accepts)
+    pub crosscheck: Vec<(bool, bool)>,
     pub sample: Option<serde_json::Value>,
 }
 
@@ -176,6 +178,16 @@ pub fn run_case(case: &Case, name: &str) -> Outcome {
         let v0 = rec0.as_ref().and_then(|p| ind_verify(&hash, rs.as_ref().unwrap(), p));
         let v1 = rec1.as_ref().and_then(|p| ind_verify(&hash, rs.as_ref().unwrap(), p));
         let ind_valid = ind_valid_personal_sign(&op.eth_address, &text, &op.eth_sig);
+        // the repo's verifier called directly on the same data (diagnostic; the verdicts
+        // come from the monitors and from the model comparison)
+        let repo_valid = match &o_sig {
+            Some(sig) => {
+                let deps = cosmwasm_std::testing::mock_dependencies();
+                matches!(catch(|| ethereum_verify::verify_ethereum_text(deps.as_ref(), &text, sig, &op.eth_address)), Ok(Ok(true)))
+            }
+            None => false,
+        };
+        out.crosscheck.push((repo_valid, ind_valid));
 
         // ---- the call
         let before_sender = w.balance(&op.sender);
@@ -832,6 +844,9 @@ pub fn run(a: &Args) {
                 distinct.insert((serde_json::to_string(&c.spec).unwrap(), p.sender.clone(), p.eth_address.clone(), p.eth_sig.clone()));
             }
         }
+        for (rv, iv) in &o.crosscheck {
+            rep.bump(&format!("verifier-crosscheck:repo-{}:independent-{}", if *rv { "accepts" } else { "rejects" }, if *iv { "accepts" } else { "rejects" }));
+        }
         for (key, what) in &o.violations {
             nviol += 1;
             if seen_keys.insert(key.clone()) || nviol <= 5 {
@@ -871,11 +886,12 @@ pub fn run(a: &Args) {
         if lo >= hi {
             break;
         }
-        let mut header = String::from("From Coq Require Import Uint63. From LP Require Import Airdrop C16Corr.\nLocal Open Scope N_scope.\n");
+        // one physical line, so that `check` finds a failing case's text by its line number
+        let mut header = String::from("From Coq Require Import Uint63. From LP Require Import Airdrop C16Corr. Local Open Scope N_scope. ");
         for d in &all_defs[lo..hi] {
             for l in d {
                 header.push_str(l);
-                header.push('\n');
+                header.push(' ');
             }
         }
         out.write_cases(&format!("C16_{}", sh), header.trim_end(), "c16_case", "c16_check", &coq_cases[lo..hi], 1, &mut rep);
